@@ -19,6 +19,7 @@ import (
 )
 
 type vClient struct {
+	Sum         func(int, int) (int, error)
 	Panic       func(context.Context, int) (int, error)
 	PanicNotify func(context.Context, int) `notify:"true"`
 	PanicSub    func(context.Context, int) (<-chan int, error)
@@ -204,6 +205,12 @@ func one(d *fw.Driver, res *fw.Result, child *victim.Child, url, httpURL, transp
 	if mon == "" {
 		if v, err := tc.Add(20, 22); err != nil || v != 42 {
 			mon = fmt.Sprintf("a subsequent call on the same client failed: %d, %v", v, err)
+		}
+	}
+	// … and a call to another method of the very service object whose method panicked
+	if mon == "" {
+		if v, err := vc.Sum(20, 22); err != nil || v != 42 {
+			mon = fmt.Sprintf("after the panic another method of the same service object no longer works: Sum(20,22) = %d, %v", v, err)
 		}
 	}
 	// what the panicking caller saw
